@@ -60,7 +60,13 @@ impl SocketSend for ReqSocket {
             if let Some(mut peer) = self.backend.peers.get_async(&next_peer_id).await {
                 self.backend.round_robin.push(next_peer_id.clone());
                 message.push_front(Bytes::new());
-                peer.send_queue.send(Message::Message(message)).await?;
+                let result = peer.send_queue.send(Message::Message(message)).await;
+                drop(peer);
+                if let Err(e) = result {
+                    // The connection is gone: forget the peer instead of rotating back to it.
+                    self.backend.peer_disconnected(&next_peer_id);
+                    return Err(e.into());
+                }
                 self.current_request = Some(next_peer_id);
                 return Ok(());
             }
@@ -95,6 +101,12 @@ impl SocketRecv for ReqSocket {
                         Some(Err(error)) => Err(error.into()),
                         None => Err(ZmqError::NoMessage),
                     };
+                    drop(peer);
+                    if matches!(&result, Err(ZmqError::Codec(_)) | Err(ZmqError::NoMessage)) {
+                        // The server closed or its connection failed: forget the peer instead of
+                        // sending the next request to a dead connection.
+                        self.backend.peer_disconnected(&peer_id);
+                    }
                     self.current_request = None;
                     result
                 } else {
